@@ -10,7 +10,15 @@ open Ldk.OutboundPay
           restart <id:part:res,...>   (res = p | c | f<auto01><perm01>) | list |
           seq <op> ; <op> ; ...   (several ops, one answer: what they pushed in order) |
           recent   (`ChannelManager::list_recent_payments`: `ID:Pending|Fulfilled|Abandoned|AwaitingInvoice`) |
-          check <id=parts;id=x;...> <autoIds>   (check_retry_payments: observed router calls, then the retain)
+          check <id=parts;id=x;...> <autoIds>   (check_retry_payments: observed router calls, then the retain) |
+          sendr <id> <parts> <results> <noSecret01>   (one send call: per-path results `o|m|e|b` = Ok /
+             Err(MonitorUpdateInProgress) / other Err / path refused by the parameter check, comma separated) |
+          retryr <id> <parts> <now01> <results> <noSecret01>   (one find_route_and_send_payment call after the route was found) |
+          chain <op> ; <op> ; ...   (like `seq`, for ONE send call and the retries handle_pay_route_err chains to it:
+             the answer ends with `chain=ok` iff every op but the last announced a follow-up retry and the last did not) |
+          amtall <msat> | amts <part:msat,...>   (directives: the path amount of every part / of the listed parts) |
+          amounts   (`ID:pending_amt_msat:total_msat` of every Retryable entry) |
+          unsettled <autoIds>   (the auto-retryable ids that check_retry_payments would still retry: `pending < total`)
     `<parts>`/`<autoIds>` = comma separated naturals or `-`.
     answer:  `ok|dup|panic` followed by the pushed events (`sent:ID failed:ID:Reason pathok:ID:PART pathfail:ID:PART`),
     stably sorted by payment id (the real map is a HashMap).  `list` prints `ID:State:nparts[:ticks]` sorted by id. -/
@@ -45,7 +53,8 @@ def sortEvs (evs : List Ev) : List Ev :=
 
 def showOut (o : Out) : String :=
   let st := if o.panic then "panic" else if o.dup then "dup" else "ok"
-  String.intercalate " " (st :: (sortEvs o.evs).map showEv)
+  String.intercalate " " (st :: (sortEvs o.evs).map showEv ++
+    (if o.tried.isEmpty then [] else ["tried=" ++ String.intercalate "," (o.tried.map toString)]))
 
 def dedup (ps : List Nat) : List Nat := ps.foldl (fun acc p => if acc.contains p then acc else acc ++ [p]) []
 
@@ -53,7 +62,7 @@ def showEntry (e : PayId × PState) : Option String :=
   match e.2 with
   | .absent => none
   | .preHtlc t => some s!"{e.1}:PreHtlc:0:{t}"
-  | .retryable ps => some s!"{e.1}:Retryable:{(dedup ps).length}"
+  | .retryable ps _ _ => some s!"{e.1}:Retryable:{(dedup ps).length}"
   | .fulfilled ps t => some s!"{e.1}:Fulfilled:{(dedup ps).length}:{t}"
   | .abandoned ps _ => some s!"{e.1}:Abandoned:{(dedup ps).length}"
 
@@ -75,11 +84,26 @@ def parseView (s : String) : List (PayId × PartId × Res) :=
     | [i, p, r] => (nat! i, nat! p, parseRes r)
     | _ => (0, 0, .pending)
 
-/-- run several ops, concatenating what they push (dup/panic are or-ed) -/
+/-- run several ops, concatenating what they push and what `sendr` / `retryr` hand to send_payment_along_path
+    (dup/panic are or-ed) -/
 def runOps (s : State) (ops : List Op) : State × Out :=
   ops.foldl (fun (acc : State × Out) op =>
     let r := step acc.1 op
-    (r.1, { evs := acc.2.evs ++ r.2.evs, dup := acc.2.dup || r.2.dup, panic := acc.2.panic || r.2.panic })) (s, {})
+    (r.1, { evs := acc.2.evs ++ r.2.evs, dup := acc.2.dup || r.2.dup, panic := acc.2.panic || r.2.panic,
+            tried := acc.2.tried ++ (match op with | .sendR _ _ _ | .retryR _ _ _ _ => r.2.tried | _ => []) })) (s, {})
+
+/-- one send call and its chained retries: every op but the last announces the follow-up, the last does not -/
+def chainOk (s : State) : List Op → Bool
+  | [] => true
+  | [op] => !(step s op).2.retryNext
+  | op :: rest => (step s op).2.retryNext && chainOk (step s op).1 rest
+
+def pathInOf (s : String) : PathIn :=
+  match s with
+  | "o" => .ok | "m" => .mip | "e" => .err | _ => .bad
+
+def csvPaths (parts res : String) : List (PartId × PathIn) :=
+  if parts == "-" then [] else (csvNats parts).zip ((res.splitOn ",").map pathInOf)
 
 /-- `check_retry_payments`: the router calls observed (`id=parts` route found, `id=x` no route), then the retain -/
 def parseCheck (s : String) : List Op :=
@@ -103,6 +127,8 @@ def parseOp (ws : List String) : Option (List Op) :=
   | ["sweep", a] => some [.sweep (csvNats a)]
   | ["tick"] => some [.tick]
   | ["insert", i, p] => some [.insert (nat! i) (nat! p)]
+  | ["sendr", i, ps, rs, ns] => some [.sendR (nat! i) (csvPaths ps rs) (ns == "1")]
+  | ["retryr", i, ps, n, rs, ns] => some [.retryR (nat! i) (csvPaths ps rs) (n == "1") (ns == "1")]
   | ["handle"] => some [.handle]
   | ["persist"] => some [.persist]
   | ["restore"] => some [.restore]
@@ -120,11 +146,29 @@ def parseSeq (ws : List String) : Option (List Op) :=
     | some a, some b => some (a ++ b)
     | _, _ => none) (some [])
 
+def showAmounts (e : PayId × PState) : Option String :=
+  match e.2 with
+  | .retryable _ pe to => some s!"{e.1}:{pe}:{to}"
+  | _ => none
+
+def parseAmts (s : String) : List (PartId × Nat) :=
+  if s == "-" then [] else
+  (s.splitOn ",").filterMap fun item =>
+    match item.splitOn ":" with
+    | [p, a] => some (nat! p, nat! a)
+    | _ => none
+
+def unsettledIds (st : State) (autos : List PayId) : List PayId :=
+  (sortEntries st.cur).filterMap fun e =>
+    match e.2 with
+    | .retryable _ pe to => if autos.contains e.1 && OutboundSendGen.wantsRetry pe to then some e.1 else none
+    | _ => none
+
 def showRecent (e : PayId × PState) : Option String :=
   match e.2 with
   | .absent => none
   | .preHtlc _ => some s!"{e.1}:AwaitingInvoice"
-  | .retryable _ => some s!"{e.1}:Pending"
+  | .retryable _ _ _ => some s!"{e.1}:Pending"
   | .fulfilled _ _ => some s!"{e.1}:Fulfilled"
   | .abandoned _ _ => some s!"{e.1}:Abandoned"
 
@@ -136,6 +180,17 @@ def c03 : Drv where
     | ["reset"] => (OutboundPay.init, "ok")
     | ["list"] => (st, String.intercalate " " ("list" :: (sortEntries st.cur).filterMap showEntry))
     | ["recent"] => (st, String.intercalate " " ("recent" :: (sortEntries st.cur).filterMap showRecent))
+    | ["amounts"] => (st, String.intercalate " " ("amounts" :: (sortEntries st.cur).filterMap showAmounts))
+    | ["amtall", n] => ({ st with amt := fun _ => nat! n }, "ok")
+    | ["amts", tab] =>
+      let t := parseAmts tab
+      let old := st.amt
+      ({ st with amt := fun p => (t.lookup p).getD (old p) }, "ok")
+    | ["unsettled", a] => (st, String.intercalate " " ("unsettled" :: (unsettledIds st (csvNats a)).map toString))
+    | "chain" :: rest =>
+      match parseSeq rest with
+      | some ops => let r := runOps st ops; (r.1, showOut r.2 ++ (if chainOk st ops then " chain=ok" else " chain=broken"))
+      | none => (st, "bad-op")
     | "seq" :: rest =>
       match parseSeq rest with
       | some ops => let r := runOps st ops; (r.1, showOut r.2)
